@@ -150,7 +150,7 @@ def build(rp):
     if rp['which'] == 'dhtv':
         p = rp['params']
         return pc.make_dhtv(p['stft'], p['start'], p['width'], p['shift'], p['main'], p['sub'], rp['metric'], rp['algo'])
-    return pa.GreedyPermutationAlignment(rp['metric'], rp['algo'])
+    return pc.make_greedy(rp['metric'], rp['algo'])
 
 
 def coq_mapping(rp, mask, mapping):
@@ -292,10 +292,10 @@ def evaluate_restore(rp):
     return None, None, coq
 
 
-def restore_case(rng, tier, i, which=None, F=None, default=False, identity=False):
+def restore_case(rng, tier, i, which=None, F=None, default=False, identity=False, level=None, metric=None):
     big = tier == 'thorough'
     which = which or ('greedy' if rng.random() < 0.5 else 'dhtv')
-    metric = pc.METRICS[int(rng.integers(0, 3))]
+    metric = metric or pc.METRICS[int(rng.integers(0, 3))]
     K = int(rng.integers(2, 5))
     T = int(rng.integers(8, 33))
     if F is None:
@@ -305,6 +305,12 @@ def restore_case(rng, tier, i, which=None, F=None, default=False, identity=False
         return None
     jit = float(rng.choice([0.0, 0.03, 0.1]))
     ref = a[:, None, :] * (1.0 + jit * (2.0 * rng.random((K, F, T)) - 1.0))
+    if level is not None:
+        ref = ref * level
+    elif i % 4 == 1:
+        # masks are defined up to their level (posteriors times power, quiet or loud recordings): the same pattern field at
+        # an extreme but finite level must be aligned the same way
+        ref = ref * float(rng.choice([1e-90, 1e90, 1e-60, 1e60]))
     if i % 4 == 3:
         # binary masks, integer typed as in the library's own examples: every frame belongs to exactly one class
         lab = np.concatenate([np.arange(K), np.arange(K), rng.integers(0, K, T - 2 * K)]) if T >= 2 * K else np.arange(T) % K
@@ -361,6 +367,16 @@ def cases(rng, tier):
         c = restore_case(rng, tier, i, identity=True)
         if c is not None:
             out.append(c)
+    # every aligner x every metric once at an extreme level
+    lv = [1e-90, 1e90, 1e-60, 1e60]
+    n_ = 0
+    for which in ('greedy', 'dhtv'):
+        for metric in pc.METRICS:
+            for rep in range(1 if q else 4):
+                c = restore_case(rng, tier, 0, which=which, metric=metric, level=lv[n_ % 4])
+                n_ += 1
+                if c is not None:
+                    out.append(c)
     # the shipped defaults at their own sizes
     for F, n in ((257, 2 if q else 12), (513, 0 if q else 6)):
         for i in range(n):
